@@ -655,10 +655,10 @@ func (o *opsGen) stepRec(f *family, stepNo int, mateProb float64, mutWeights []i
 					ws := []float64{5e-324, -5e-324, 1.5e-323, 2.5e-323, 1e-310, -3e-308, 1.7e308, 0}
 					off := r.Intn(3)
 					for _, x := range a.Genes {
-						x.Link.ConnectionWeight = ws[int(x.InnovationNum)%len(ws)]
+						x.Link.ConnectionWeight = ws[int(((x.InnovationNum%8)+8)%8)%len(ws)]
 					}
 					for _, x := range b.Genes {
-						x.Link.ConnectionWeight = ws[(int(x.InnovationNum)+off)%len(ws)]
+						x.Link.ConnectionWeight = ws[(int(((x.InnovationNum%8)+8)%8)+off)%len(ws)]
 					}
 				}
 				g, g2 = a, b
